@@ -1067,7 +1067,7 @@ class Filterbank(ABC):
         # the kernel accumulates into out_ar, so it is zeroed before every block
         out_ar = np.zeros((gulp - max_delay) * nsub, dtype="float32")
         new_foff = self.header.foff * self.header.nchans / nsub
-        new_fch1 = self.header.ftop - new_foff / 2
+        new_fch1 = self.header.ftop + new_foff / 2
         chan_to_sub = np.arange(self.header.nchans, dtype="int32") // subfactor
         updates = {
             "fch1": new_fch1,
